@@ -14,7 +14,7 @@ REPO = "/repo"
 
 
 def sh(cmd, cwd=None):
-    r = subprocess.run(cmd, shell=True, cwd=cwd, stdout=subprocess.PIPE, stderr=subprocess.STDOUT, text=True, env=dict(os.environ, CARGO_NET_OFFLINE="true"))
+    r = subprocess.run(cmd, shell=True, cwd=cwd, stdout=subprocess.PIPE, stderr=subprocess.STDOUT, text=True, env=dict(os.environ, CARGO_NET_OFFLINE="true", VT_NO_SELFTEST="1"))
     return r.returncode, r.stdout
 
 
